@@ -1,7 +1,11 @@
 ---------------------------- MODULE MC_Concurrency ----------------------------
 EXTENDS Concurrency, Json
-\* passes only (Finish steps are not scheduled): emit once per complete schedule
-Emit == (AllDone /\ \A p \in Procs : pos[p] = Len(Gates(kind[p]))) =>
-  PrintT(<<"VEC", ToJson([kinds |-> kind, order |-> hist])>>)
-\* different Finish orders reach the same final state: one vector per schedule
+\* one vector per complete schedule (request triples, replay mode, order of the gate passes).  The arrivals are
+\* not part of a schedule: in the serial mode they are determined by the passes, in the free mode the harness
+\* cannot see them.  Without a deviation the final state is a function of (req, serial, hist): one vector each.
+Emit == AllDone =>
+  PrintT(<<"VEC", ToJson([kinds |-> kind, codecs |-> [p \in Procs |-> req[p].codec], bodies |-> [p \in Procs |-> req[p].body],
+                           serial |-> serial, order |-> hist])>>)
+\* the codec family: every content type class x body kind, answered with an echo wherever the body can be decoded
+CodecFamily == \A p \in Procs : (req[p].kind = "invalid") <=> DecodeFails(req[p].codec, req[p].body)
 ===============================================================================
